@@ -1,15 +1,37 @@
 """C03 - see p_cachefam.py (cache family) and DESIGN.md section 5/C03."""
+import json
+
 import p_cachefam as fam
+import p_simple
 
 PID = "C03"
 RULE = "seeded random call sequences on a real cache.Cache (profile 'feed': multi-update/delete notifications, atomic containers, wildcard deletes, shared prefix/path objects with spare slice capacity, Reset/Remove, event-driven emulation on and off); TLC validates against CacheTrace.tla that the feed entries received by the SetClient callback during each call are exactly those Cache.tla prescribes, that replaying them reproduces the content read back (mirror = store) after every call, and that the caller's notification is unmodified. distinct_nontrivial = distinct (call, result, feed, content) lines with non-empty content"
+
+CONC_RULE = ("between quiescent points: %d scenarios of 6-13 rounds on a real cache.Cache in which 2-3 writers update ONE target at the same time (a fresh or an "
+             "existing leaf, timestamps handed out in shuffled order, single and two-update notifications, now and then a writer on a second target), placed "
+             "with the cache's feed.before hook - a writer is held where it is about to hand its leaf to the feed while the others run their whole call - or "
+             "started together behind a barrier; deletes (leaf, subtree, with an update) come in rounds of their own. The feed callback records what the leaf "
+             "it is handed holds; after every round the cache is read back and TLC (CacheFeedConcTrace.tla) requires the replayed feed to equal it (values; "
+             "timestamps too when all values are distinct), every entry to be something a writer wrote and every accepted single update to have its entry")
 
 
 def run(tier):
     n, length = (480, 60) if tier == "quick" else (12000, 80)
     cfg = "CacheMC_C03.cfg" if tier == "quick" else "CacheMC_C03_thorough.cfg"
-    return fam.run_family(PID, tier, 'feed', n, length, cfg, RULE, shards=16 if tier == "quick" else 48)
+    rc1 = fam.run_family(PID, tier, 'feed', n, length, cfg, RULE, shards=16 if tier == "quick" else 48)
+    cn = 1500 if tier == "quick" else 60000
+    rc2 = p_simple.run(PID, tier, [], [["cache", "feedconc", "-n", str(cn), "-shards", "8" if tier == "quick" else "32"]],
+                       "CacheFeedConcTrace.tla", CONC_RULE % cn,
+                       ["between quiescent points: concurrent rounds carry update notifications only (a delete racing with an update of the same leaf has "
+                        "no defined outcome for two writers of one target); the feed callback reads the leaf it is handed under the recorder's lock, so the "
+                        "recorded order is the order in which the entries were taken"],
+                       boundary=("fsc",), count_keys=("scenarios",), sig=lambda r: "cache feed (concurrent writers) %s" % r.event.get("ev"),
+                       trivial=lambda l: b'"ev":"fsc"' in l or b'"leaves":[]' in l, merge=True, stage="-fconc", crash_pkg="cache")
+    return max(rc1, rc2)
 
 
 def replay(path):
+    with open(path) as f:
+        if json.load(f).get("spec") == "CacheFeedConcTrace.tla":
+            return p_simple.replay_events(PID, path, "CacheFeedConcTrace.tla", boundary=("fsc",))
     return fam.replay_family(PID, path)
